@@ -444,8 +444,8 @@ pub fn run(env: &mut Env) {
         patterns.len()
     ));
     // (2) grammar-aware + mutational
-    env.run_random::<Mutated>(if t { 20_000_000 } else { 1_000_000 });
-    env.run_random::<Short>(if t { 2_000_000 } else { 100_000 });
+    env.run_random::<Mutated>(if t { 20_000_000 } else { 3_000_000 });
+    env.run_random::<Short>(if t { 2_000_000 } else { 300_000 });
     // (3) committed fuzz corpus / crash inputs replayed through the same body
     replay_corpus(env);
 }
